@@ -399,4 +399,80 @@ theorem cache_removeLeaf (k : Nat) (i : Inv) (hi : HeapTree i) (h : CacheTree i)
       · refine Or.inr ⟨g, List.mem_filter.mpr ⟨hg, ?_⟩, hgq, hgp⟩
         exact keepKid_of_hasQueued k g (hq.2 g hg) ((mem_queued_iff i g hq.1 hg).mp hgq)
 
+/-! ### exact caches -/
+
+theorem firstPrio_of_lookup (i N : Inv) (ho : N.ops = i.ops) (hq : N.queued = i.queued) (hp : N.prio = i.prio)
+    (hfind : ∀ x ∈ i.queued, (N.kids.find? fun c => c.key == x) = i.kids.find? fun c => c.key == x) :
+    firstPrio N = firstPrio i := by
+  unfold firstPrio
+  rw [ho, hq, hp]
+  cases i.ops with
+  | cons _ _ => rfl
+  | nil =>
+    cases hqq : i.queued with
+    | nil => rfl
+    | cons b _ =>
+      simp only []
+      unfold kidOr
+      rw [hfind b (by rw [hqq]; exact List.mem_cons_self)]
+
+theorem exactTree_emptyInv (k now : Nat) : ExactTree (emptyInv k now) :=
+  ExactTree.mk _ (by intro c hc; simp [emptyInv, Inv.kids] at hc) (by intro c hc; simp [emptyInv, Inv.kids] at hc)
+
+theorem exact_createLeaf (k now : Nat) (i : Inv) (hi : HeapTree i) (h : ExactTree i) :
+    ExactTree (createLeaf k now i) ∧ (createLeaf k now i).prio = i.prio ∧
+      firstPrio (createLeaf k now i) = firstPrio i ∧ (createLeaf k now i).key = i.key := by
+  have hq := (heapTree_iff i).mp hi
+  unfold createLeaf
+  split
+  · exact ⟨h, rfl, rfl, rfl⟩
+  · refine ⟨?_, by simp, ?_, by simp⟩
+    · rw [exactTree_iff]
+      intro c hc
+      simp only [S.setKids_kids, List.mem_append, List.mem_singleton] at hc
+      rcases hc with hc | rfl
+      · exact ((exactTree_iff i).mp h) c hc
+      · exact ⟨rfl, exactTree_emptyInv k now⟩
+    · apply firstPrio_of_lookup i _ (by simp) (by simp) (by simp)
+      intro x hx
+      simp only [S.setKids_kids, List.find?_append]
+      obtain ⟨c, hc, hck, _⟩ := hq.1.qsub x hx
+      have := child_of_mem i hq.1.keys c hc
+      unfold Inv.child at this
+      rw [← hck, this]; rfl
+
+theorem exact_removeLeaf (k : Nat) (i : Inv) (hi : HeapTree i) (h : ExactTree i) :
+    ExactTree (removeLeaf k i) ∧ (removeLeaf k i).prio = i.prio ∧
+      firstPrio (removeLeaf k i) = firstPrio i ∧ (removeLeaf k i).key = i.key := by
+  have hq := (heapTree_iff i).mp hi
+  unfold removeLeaf
+  refine ⟨?_, by simp, ?_, by simp⟩
+  · rw [exactTree_iff]
+    intro c hc
+    simp only [S.setKids_kids] at hc
+    exact ((exactTree_iff i).mp h) c (List.mem_filter.mp hc).1
+  · apply firstPrio_of_lookup i _ (by simp) (by simp) (by simp)
+    intro x hx
+    simp only [S.setKids_kids, List.find?_filter]
+    obtain ⟨c, hc, hck, hcq⟩ := hq.1.qsub x hx
+    have hf := child_of_mem i hq.1.keys c hc
+    unfold Inv.child at hf
+    rw [hck] at hf
+    rw [hf]
+    have := find?_and_of_find? (keepKid k) _ i.kids c hf (keepKid_of_hasQueued k c (hq.2 c hc) hcq)
+    rw [← this]
+    congr 1
+    funext a
+    have : decide (a.key = x) = (a.key == x) := by
+      by_cases h : a.key = x <;> simp [h]
+    cases keepKid k a <;> simp [this]
+
+theorem exact_create (k now : Nat) (path : List Nat) (t : Inv) (ht : HeapTree t) (h : ExactTree t) :
+    ExactTree (createInvocation k now path t) :=
+  (exact_stable _ storeKid (exact_createLeaf k now) (by intro P c'; simp [storeKid]) path t ht h).1
+
+theorem exact_removeInvocation (k : Nat) (path : List Nat) (t : Inv) (ht : HeapTree t) (h : ExactTree t) :
+    ExactTree (removeInvocation k path t) :=
+  (exact_stable _ storeKid (exact_removeLeaf k) (by intro P c'; simp [storeKid]) path t ht h).1
+
 end BbRe.Lemmas.Fair
